@@ -583,6 +583,29 @@ def program_families(ctx, pool, idx, thorough):
         v, lines = pool.add(st[:pos] + [s] + st[pos:])
         pool.fam("use-before", {"want_kind": "name", "line": lines[pos], "name": x, "form": form, "pos": pos,
                                 "bound_later": x in later}, variant=v, prefix=prefix(pos))
+    # (b') a reference through a BOUND name with more than two components names nothing: a variable has methods, methods
+    # have no members
+    for _ in range(2):
+        pos = r.choice(positions)
+        bound = [x for x in let_names(st[:pos])]
+        if not bound:
+            continue
+        x = r.choice(bound)
+        form = r.choice(["call3", "call4", "ref3", "let3", "arg3"])
+        mid = r.choice(["nosuch", "server", "open", "client_message", x])
+        if form == "call3":
+            s = Do(Call("%s.%s.client_message" % (x, mid), STR(b"abc")))
+        elif form == "call4":
+            s = Do(Call("%s.%s.peer.open" % (x, mid)))
+        elif form == "ref3":
+            s = Do(Ref("%s.%s.open" % (x, mid)))
+        elif form == "let3":
+            s = Let("deep_q%d" % idx, Ref("%s.%s.open" % (x, mid)))
+        else:
+            s = Do(Call("text::concat", STR(b"a"), Ref("%s.%s.echo" % (x, mid))))
+        v, lines = pool.add(st[:pos] + [s] + st[pos:])
+        pool.fam("use-before", {"want_kind": "name", "line": lines[pos], "name": x, "form": "deep:" + form, "pos": pos,
+                                "bound_later": False}, variant=v, prefix=prefix(pos))
     # (c) the leftmost failing argument decides; nothing to its right is evaluated
     for _ in range(3 if thorough else 2):
         pos = r.choice(positions)
